@@ -96,6 +96,11 @@ func OpenPathDriver(path, driverName string) (*Exec, error) {
 	if driverName != "" {
 		opts = &redka.Options{DriverName: driverName}
 	}
+	return OpenPathOpts(path, opts)
+}
+
+// OpenPathOpts opens the database with the given public options (nil = defaults).
+func OpenPathOpts(path string, opts *redka.Options) (*Exec, error) {
 	db, err := redka.Open(path, opts)
 	if err != nil {
 		return nil, err
